@@ -5,7 +5,10 @@
 //! K: parsed declaration trees (and every JSDoc comment, type-level and field-level) = the Lean model's trees.
 //! O: for every exported alias of every namespace (and every top-level alias) membership of every value of the
 //!    finite abstract value domain in the REAL parsed declarations (`ts.table`, TS-subset semantics) is compared
-//!    with the reference `Ref_t(T)` (`ref.table`); the Resolvers type is checked structurally against the schema.
+//!    with the reference `Ref_t(T)` (`ref.table`); the Resolvers type is checked structurally against the schema AND, for
+//!    every object field, [[Args]] = Ref_ResolverInput(args f) and [[Result]] = the resolver result reference of type f,
+//!    evaluated in the REAL resolvers file linked with the REAL schema file (`ref.fields`). The reference side is
+//!    computed from the generator's ABSTRACT schema model (not from the real pipeline's resolved document).
 //! Signatures = (kind, clause, direction).
 #[path = "c10/common.rs"]
 mod common;
@@ -268,6 +271,119 @@ fn check_resolvers(rep: &mut Report, view: &SchemaView, file: &Sexp, case: &Case
     }
 }
 
+#[allow(clippy::too_many_arguments)]
+fn resolver_members(rep: &mut Report, drv: &mut Driver, view: &SchemaView, resolvers: &Sexp, schema_tree: &Sexp, cfg_sexp: &Sexp, ref_doc_sexp: &Sexp, domain: &[(String, J)], case: &Case) {
+    let Some(res) = find_type(resolvers, "Resolvers") else {
+        return;
+    };
+    let Some(root) = obj_fields(&res.args()[3]) else {
+        return;
+    };
+    let schema_module = resolvers
+        .args()
+        .iter()
+        .find_map(|s| if s.head() == Some("import") && s.args()[2] == Sexp::call("star", vec![Sexp::str("Schema")]) { s.args()[0].as_str().map(|x| x.to_string()) } else { None })
+        .unwrap_or_default();
+    let mods = Sexp::call("mods", vec![Sexp::list(vec![Sexp::str(schema_module.as_str()), schema_tree.clone()])]);
+    // extra values: argument records and what resolvers return for objects (records without `__typename`)
+    let mut values: Vec<(String, J)> = domain.to_vec();
+    let mut queries: Vec<(String, String, &'static str, String)> = vec![]; // (type, field, args|result, kind)
+    let mut ts_q = vec![];
+    let mut ref_q = vec![];
+    for t in view.type_defs() {
+        if t.kind != TypeKind::Object {
+            continue;
+        }
+        if let Some(J::Obj(kvs)) = view.sample_named("ro", &t.name, 0, true) {
+            let stripped = J::Obj(kvs[1..].to_vec());
+            record_mutations("resolver-object-record", &stripped, &mut values);
+            values.push(("resolver-object-record:in-list".into(), J::Arr(vec![stripped.clone()])));
+            values.push(("resolver-object-record:in-list-with-null".into(), J::Arr(vec![stripped.clone(), J::Null])));
+            values.push(("resolver-object-record:in-nested-list".into(), J::Arr(vec![J::Arr(vec![stripped.clone()])])));
+            values.push(("resolver-object-record:with-typename".into(), J::Obj(kvs.clone())));
+        }
+        let Some((_, _, entry)) = root.iter().find(|f| f.0 == t.name) else {
+            continue; // reported by check_resolvers
+        };
+        let Some(fs) = obj_fields(entry) else {
+            continue;
+        };
+        for f in &t.fields {
+            let Some((_, _, fty)) = fs.iter().find(|x| x.0 == f.name) else {
+                continue;
+            };
+            let Some(a) = (if fty.head() == Some("app") { fty.args()[1].as_list() } else { None }) else {
+                continue;
+            };
+            if a.len() != 4 {
+                continue;
+            }
+            // argument records: all present (full / minimal), one dropped / extra / wrong, null for each argument
+            if !f.args.is_empty() {
+                let full: Option<Vec<(String, J)>> = f.args.iter().map(|x| view.sample_ty("ri", &x.ty, 0, true).map(|v| (x.name.clone(), v))).collect();
+                if let Some(full) = full {
+                    record_mutations("args-record", &J::Obj(full.clone()), &mut values);
+                    for i in 0..full.len() {
+                        let mut m = full.clone();
+                        m[i].1 = J::Null;
+                        values.push((format!("args-record:null-for-{}", if f.args[i].default.is_some() { "defaulted-argument" } else { "argument" }), J::Obj(m)));
+                    }
+                }
+                let min: Option<Vec<(String, J)>> = f.args.iter().map(|x| view.sample_ty("ri", &x.ty, 0, false).map(|v| (x.name.clone(), v))).collect();
+                if let Some(min) = min {
+                    values.push(("args-record:minimal".into(), J::Obj(min)));
+                }
+            }
+            let kind = view.doc.type_def(f.ty.unwrapped()).map(|k| k.kind.as_str()).unwrap_or("?").to_string();
+            queries.push((t.name.clone(), f.name.clone(), "args", "args-record".into()));
+            ts_q.push(Sexp::list(vec![Sexp::list(vec![]), a[1].clone()]));
+            ref_q.push(Sexp::call("args", vec![Sexp::list(f.args.iter().map(|x| strip_pos(&x.to_sexp())).collect())]));
+            queries.push((t.name.clone(), f.name.clone(), "result", kind));
+            ts_q.push(Sexp::list(vec![Sexp::list(vec![]), a[3].clone()]));
+            ref_q.push(Sexp::call("result", vec![strip_pos(&f.ty.to_sexp())]));
+        }
+    }
+    if queries.is_empty() {
+        return;
+    }
+    let values = dedup(values);
+    let vals_sexp = Sexp::list(values.iter().map(|(_, v)| v.to_sexp()).collect());
+    let ans = drv.batch(&[
+        Sexp::call("ts.table", vec![resolvers.clone(), mods, vals_sexp.clone(), Sexp::list(ts_q)]),
+        Sexp::call("ref.fields", vec![cfg_sexp.clone(), ref_doc_sexp.clone(), vals_sexp, Sexp::list(ref_q)]),
+    ]);
+    if ans[0].head() != Some("ok") || ans[1].head() != Some("ok") {
+        rep.fail("K", "driver", &format!("driver answers (resolvers): {} / {}", ans[0].to_line().chars().take(200).collect::<String>(), ans[1].to_line().chars().take(200).collect::<String>()), case.to_json());
+        return;
+    }
+    let mut members = 0u64;
+    for (qi, (ty, field, what, kind)) in queries.iter().enumerate() {
+        rep.o_cases += 1;
+        let tsr = ans[0].args()[qi].as_list().unwrap();
+        let rfr = ans[1].args()[qi].as_list().unwrap();
+        for (vi, (label, v)) in values.iter().enumerate() {
+            rep.evaluations += 1;
+            let in_ts = tsr[vi].as_atom() == Some("true");
+            let in_ref = rfr[vi].as_atom() == Some("true");
+            members += in_ref as u64;
+            if in_ts != in_ref {
+                let dir = if in_ts { "too-wide" } else { "too-narrow" };
+                let clause = label.split(':').next().unwrap_or("");
+                let sig = format!("resolvers:{what}:{kind}:{clause}:{dir}");
+                let refname = if *what == "args" { format!("Ref_ResolverInput(args {ty}.{field})") } else { format!("the resolver result reference of {ty}.{field}") };
+                rep.fail(
+                    "O",
+                    &sig,
+                    &format!("[{label}] Resolvers[{ty}][{field}] {}: the emitted TypeScript type {} the value {} but {refname} {}", if *what == "args" { "Args" } else { "Result" }, if in_ts { "admits" } else { "rejects" }, v.text(), if in_ref { "contains it" } else { "does not" }),
+                    case.to_json(),
+                );
+            }
+        }
+    }
+    rep.count_n("domain:resolver-queries", queries.len() as u64);
+    rep.count_n("domain:resolver-member-pairs", members);
+}
+
 fn run_case(rep: &mut Report, drv: &mut Driver, case: &Case) {
     rep.evaluations += 1;
     let yaml = case.cfg.yaml();
@@ -298,10 +414,17 @@ fn run_case(rep: &mut Report, drv: &mut Driver, case: &Case) {
         }
     };
     let doc_sexp = strip_pos(&tsdoc.to_sexp());
+    // reference side: the generator's abstract model when the case has one (K keeps the real resolved document)
+    let ref_doc: TsDoc = case.model.clone().unwrap_or_else(|| tsdoc.clone());
+    let ref_doc_sexp = strip_pos(&ref_doc.to_sexp());
+    rep.count(if case.model.is_some() { "reference:abstract-model" } else { "reference:real-resolved-document(corpus text)" });
+    if case.origin.contains(":extensions") {
+        rep.count("feature:schema-written-with-extensions");
+    }
     let ans = drv.batch(&[Sexp::call("decls.schema", vec![cfg_sexp.clone(), doc_sexp.clone()]), Sexp::call("decls.resolvers", vec![cfg_sexp.clone(), doc_sexp.clone()])]);
-    let view0_defs: Vec<&TypeDef> = tsdoc.items.iter().filter_map(|i| if let TsItem::TypeDef(t) = i { Some(t) } else { None }).collect();
+    let view0_defs: Vec<&TypeDef> = ref_doc.items.iter().filter_map(|i| if let TsItem::TypeDef(t) = i { Some(t) } else { None }).collect();
     // ---- input distribution
-    let eff = effective_scalars(&case.cfg, &tsdoc);
+    let eff = effective_scalars(&case.cfg, &ref_doc);
     for k in [TypeKind::Scalar, TypeKind::Object, TypeKind::Interface, TypeKind::Union, TypeKind::Enum, TypeKind::Input] {
         if view0_defs.iter().any(|t| t.kind == k && !t.name_pos.builtin) {
             rep.count(&format!("feature:kind:{}", k.as_str()));
@@ -333,7 +456,7 @@ fn run_case(rep: &mut Report, drv: &mut Driver, case: &Case) {
     if tmp_in_text {
         rep.count("feature:scalar-text-mentions-__tmp_");
     }
-    let hostile = any_desc_contains(&tsdoc, "*/");
+    let hostile = any_desc_contains(&tsdoc, "*/") || any_desc_contains(&ref_doc, "*/");
     if hostile {
         rep.count("feature:description-contains-comment-close");
     }
@@ -345,6 +468,17 @@ fn run_case(rep: &mut Report, drv: &mut Driver, case: &Case) {
     }
     if case.cfg.runtime {
         rep.count("feature:emitSchemaRuntime");
+    }
+    for t in &view0_defs {
+        for f in &t.fields {
+            for a in &f.args {
+                if a.default.is_some() {
+                    let shape = if a.ty.is_non_null() { "non-null" } else if a.ty.text().starts_with('[') { "nullable-list" } else { "nullable-named" };
+                    let kind = ref_doc.type_def(a.ty.unwrapped()).map(|k| k.kind.as_str()).unwrap_or("?");
+                    rep.count(&format!("feature:argument-with-default:{shape}:{kind}"));
+                }
+            }
+        }
     }
 
     // ---- schema file: well-formedness, K
@@ -438,7 +572,7 @@ fn run_case(rep: &mut Report, drv: &mut Driver, case: &Case) {
             scalar_sample.insert((n.clone(), tg.to_string()), s);
         }
     }
-    let view = SchemaView { doc: &tsdoc, scalar_sample, optional: case.cfg.optional.unwrap_or(true) };
+    let view = SchemaView { doc: &ref_doc, scalar_sample, optional: case.cfg.optional.unwrap_or(true) };
     if let Some(rt) = &real_resolvers {
         check_resolvers(rep, &view, rt, case);
     }
@@ -519,7 +653,7 @@ fn run_case(rep: &mut Report, drv: &mut Driver, case: &Case) {
     let mods = Sexp::call("mods", vec![Sexp::list(vec![Sexp::str("m"), real_tree.clone()])]);
     let ans = drv.batch(&[
         Sexp::call("ts.table", vec![importer, mods, vals_sexp.clone(), Sexp::list(ts_q)]),
-        Sexp::call("ref.table", vec![cfg_sexp.clone(), doc_sexp.clone(), vals_sexp, Sexp::list(ref_q)]),
+        Sexp::call("ref.table", vec![cfg_sexp.clone(), ref_doc_sexp.clone(), vals_sexp, Sexp::list(ref_q)]),
     ]);
     if ans[0].head() != Some("ok") || ans[1].head() != Some("ok") {
         rep.fail("K", "driver", &format!("driver answers: {} / {}", ans[0].to_line().chars().take(200).collect::<String>(), ans[1].to_line().chars().take(200).collect::<String>()), case.to_json());
@@ -554,6 +688,12 @@ fn run_case(rep: &mut Report, drv: &mut Driver, case: &Case) {
                 rep.fail("O", &sig, &what, case.to_json());
             }
         }
+    }
+    // ---- O (resolvers file): Args and Result of every field resolver, evaluated in the REAL resolvers file linked with
+    // the REAL schema file through its `import type * as Schema`, against Ref_ResolverInput(args f) / the resolver
+    // result reference of type f
+    if let Some(rt) = &real_resolvers {
+        resolver_members(rep, drv, &view, rt, &real_tree, &cfg_sexp, &ref_doc_sexp, &values, case);
     }
     rep.count_n("domain:values", values.len() as u64);
     rep.count_n("domain:aliases", queries.len() as u64);
